@@ -1600,6 +1600,10 @@ theorem processBroadcast_enr {pf : Option Frag} (a : Acc) (f : Frag) (m : Nat) (
     have := (handleFreeze_frame ({ a.1 with lastBroadcast := some m }, a.2) ctrl.seq k hs).1
     simp only [id] at this
     exact same (by rw [this]; rfl)
+  | freezeAt hs _ _ =>
+    have := (handleFreezeAtTime_frame ({ a.1 with lastBroadcast := some m }, a.2) ctrl.seq hs).1
+    simp only [id] at this
+    exact same (by rw [this]; rfl)
   | record _ => exact same rfl
   | enable hs h20 ho =>
     subst h20 ho
